@@ -6,6 +6,9 @@
 #include <stdint.h>
 #include <stddef.h>
 #include <stdio.h>
+#include <dirent.h>
+#include <sys/stat.h>
+#include <unistd.h>
 #include <stdlib.h>
 #include <string.h>
 #include <stdarg.h>
@@ -195,6 +198,7 @@ void  hx_real_free(void *p);
 void hx_emit_stat(const char *key, long long v);
 void hx_emit_max(const char *key, long long v);
 void hx_emit_cap(const char *what);
+const char *hx_extract_dir(void); int hx_extract_leftovers(void); void hx_extract_cleanup(void);
 void hx_emit_sample(const char *text);
 void hx_emit_info(const char *fmt, ...) __attribute__((format(printf, 1, 2)));
 /* a violation: replay text is written by the parent; sig is the attribution signature */
